@@ -1038,7 +1038,10 @@ func (s *pScope) value(e ast.Expr) (string, pRes) {
 	switch x := e.(type) {
 	case *ast.ParenExpr:
 		return s.value(x.X)
-	case *ast.CallExpr: // conversion T(x)
+	case *ast.CallExpr: // conversion T(x), or a call of another constructor function of this package
+		if v, t, ok := s.ctorCall(x); ok {
+			return v, t
+		}
 		if len(x.Args) != 1 || x.Ellipsis != token.NoPos {
 			fail(pos(e), "unsupported call %s in a constructor (only conversions are pure)", src(e))
 		}
@@ -1096,6 +1099,81 @@ func (s *pScope) value(e ast.Expr) (string, pRes) {
 	}
 	fail(pos(e), "unsupported expression %s in a constructor function", src(e))
 	return "", pRes{}
+}
+
+// h(a1, …, an) / h[T…](a1, …, an) where h is a top-level function of the same package declared EARLIER in the file (so
+// its Lean definition exists): the Lean application, arguments coerced to the parameter types. Type arguments are
+// the explicit ones, or — when left to inference — the caller's type parameters of the same names.
+func (s *pScope) ctorCall(x *ast.CallExpr) (string, pRes, bool) {
+	if x.Ellipsis != token.NoPos {
+		return "", pRes{}, false
+	}
+	var h *ast.Ident
+	var targs []ast.Expr
+	switch f := x.Fun.(type) {
+	case *ast.Ident:
+		h = f
+	case *ast.IndexExpr:
+		h, _ = f.X.(*ast.Ident)
+		targs = []ast.Expr{f.Index}
+	case *ast.IndexListExpr:
+		h, _ = f.X.(*ast.Ident)
+		targs = f.Indices
+	}
+	if h == nil {
+		return "", pRes{}, false
+	}
+	var fd *ast.FuncDecl
+	for _, d := range s.p.file.Decls {
+		if g, ok := d.(*ast.FuncDecl); ok && g.Recv == nil && g.Name.Name == h.Name && g.Body != nil {
+			fd = g
+		}
+	}
+	if fd == nil || fd.Pos() >= x.Pos() {
+		return "", pRes{}, false
+	}
+	env := map[string]string{}
+	tps := []string{}
+	if fd.Type.TypeParams != nil {
+		for _, f := range fd.Type.TypeParams.List {
+			for _, n := range f.Names {
+				tps = append(tps, n.Name)
+			}
+		}
+	}
+	if targs != nil {
+		if len(targs) != len(tps) {
+			return "", pRes{}, false
+		}
+		for i, t := range tps {
+			env[t] = s.w.resolve(s.p, targs[i], s.env).lean
+		}
+	} else {
+		for _, t := range tps {
+			if s.env[t] == "" {
+				fail(pos(x), "call %s: type arguments left to inference (only when the caller has type parameters of the same names)", src(x))
+			}
+			env[t] = s.env[t]
+		}
+	}
+	n := 0
+	args := []string{}
+	for _, f := range fd.Type.Params.List {
+		want := s.w.resolve(s.p, f.Type, env)
+		for range f.Names {
+			if n >= len(x.Args) {
+				return "", pRes{}, false
+			}
+			v, vt := s.value(x.Args[n])
+			args = append(args, s.coerce(v, vt, want, x.Args[n]))
+			n++
+		}
+	}
+	if n != len(x.Args) {
+		return "", pRes{}, false
+	}
+	res := s.w.resolve(s.p, oneResult(fd.Type, h.Name), env)
+	return fmt.Sprintf("(%s_%s %s)", s.p.name, h.Name, strings.Join(args, " ")), res, true
 }
 
 func (s *pScope) coerce(v string, have, want pRes, at ast.Expr) string {
